@@ -590,6 +590,18 @@ func TestRaceC01(t *testing.T) {
 			b.WriteString("go func() {\nsn = 0\nfor w = 0; w < 10000; w++ {\ntry {\n" + use + "} catch e { }\n}\nwdone <- 1\n}()\n")
 			b.WriteString("sn = 0\nfor w = 0; w < 10000; w++ {\ntry {\n" + use + "} catch e { }\n}\nstopw = true\n<-wdone\n<-wdone\n")
 		}
+		if round%16 == 5 {
+			// a variable whose address is taken and used by goroutines while the scope that holds it deletes and defines
+			// it again
+			b.WriteString("avar = 1\nadone = make(chan int64, 2)\nastop = false\n")
+			b.WriteString("go func() {\nfor !astop { try { ap = &avar; aq = *ap } catch e { } }\nadone <- 1\n}()\n")
+			b.WriteString("go func() {\nfor !astop { try { ar = avar + 1 } catch e { } }\nadone <- 1\n}()\n")
+			// (unrolled: only a statement of the scope itself defines the variable there again)
+			for aw := 0; aw < 600; aw++ {
+				fmt.Fprintf(&b, "delete(\"avar\")\navar = %d\n", aw)
+			}
+			b.WriteString("astop = true\n<-adone\n<-adone\n")
+		}
 		fmt.Fprintf(&b, "for i = 0; i < %d; i++ { <-done }\nlen(nerr)\n", k)
 		src := b.String()
 		e := env.NewEnv()
